@@ -11,7 +11,7 @@
 //!   DefinedName::get_name / get_address / has_local_sheet_id.
 //! One event per case:
 //!   {"a":"Load","case":id,"outcome":"ok"|"err"|"panic","msg":..,
-//!    "sheets":[{"name","cells":[{"r","c","k","v","b","f","hf","fmt","fid","runs":[..],"hl","url","loc"}],
+//!    "sheets":[{"name","cells":[{"r","c","k","v","b","f","hf","fmt","fid","runs":[..],"hl","url","loc","tip"}],
 //!               "names":[{"name","addr","local"}],"tables":[{"name","cols":[..]}]}],
 //!    "names":[{"name","addr","local"}]}
 //! k = text | rich | num | bool | err | blank | lazy; b = bit pattern of get_value_number (16 hex
@@ -67,16 +67,16 @@ fn dump_sheet(ws: &Worksheet) -> Value {
             .map(|n| n.get_format_code().to_string())
             .unwrap_or_else(|| "General".to_string());
         let fid = c.get_style().get_number_format().map(|n| *n.get_number_format_id()).unwrap_or(0).min(OOB);
-        let (hl, url, loc) = match c.get_hyperlink() {
-            Some(h) => (true, h.get_url().to_string(), *h.get_location()),
-            None => (false, String::new(), false),
+        let (hl, url, loc, tip) = match c.get_hyperlink() {
+            Some(h) => (true, h.get_url().to_string(), *h.get_location(), h.get_tooltip().to_string()),
+            None => (false, String::new(), false, String::new()),
         };
         cells.push(json!({
             "r": (*co.get_row_num()).min(OOB), "c": (*co.get_col_num()).min(OOB),
             "k": kind_of(raw), "v": c.get_value().to_string(),
             "b": c.get_value_number().map(f64_bits).unwrap_or_default(),
             "f": c.get_formula(), "hf": c.is_formula(), "fmt": fmt, "fid": fid, "runs": runs,
-            "hl": hl, "url": url, "loc": loc,
+            "hl": hl, "url": url, "loc": loc, "tip": tip,
         }));
     }
     let tables: Vec<Value> = ws
